@@ -293,6 +293,7 @@ class CallMixin(ExprMixin):
             for nm, dflt in c.dataclass_fields:
                 fields.append((c, nm, dflt))
         kwargs = dict(kwargs)
+        args = list(args)
         d = st.heap[obj.oid]
         post = []
         for c, nm, dflt in fields:
@@ -310,7 +311,9 @@ class CallMixin(ExprMixin):
             plain = nm
             if plain.startswith("_" + c.name.lstrip("_") + "__"):
                 plain = plain[len("_" + c.name.lstrip("_")):]
-            if init_flag and (plain in kwargs or nm in kwargs):
+            if init_flag and args:
+                d[nm] = args.pop(0)
+            elif init_flag and (plain in kwargs or nm in kwargs):
                 d[nm] = kwargs.pop(plain if plain in kwargs else nm)
             elif default_expr is not None:
                 fi = FuncInfo(c.module, c.name + ".<dataclass>", ast.parse("lambda: 0").body[0].value, c)
@@ -682,6 +685,17 @@ class CallMixin(ExprMixin):
         for g, init in c.ghost.items():
             gctx = self.spec_ctx(fi, frame, None, ghosts)
             ghosts[g] = ops.lift(self.eval1(ast.parse(init, mode="eval").body, st, gctx))
+        # an awaited callee may suspend (unless its contract says it does not in this pre-state): the caller's atomic
+        # invariant must hold when control is given away, i.e. in the pre-call state
+        may_suspend = False
+        if fi.is_async and self.top_ctx is not None and self.top_ctx.contract is not None and \
+                (self.top_ctx.contract.env.get("rely_havoc") or self.top_ctx.contract.env.get("rely_inv") or self.top_ctx.contract.env.get("atomic_inv")):
+            may_suspend = True
+            su = c.env.get("suspends_unless")
+            if su is not None and self.prover(st)(self.eval_clause(Clause("suspends_unless", su), st, sctx)):
+                may_suspend = False
+            if may_suspend:
+                self.check_atomic_inv(st, line, f"before-await-{fi.name}")
         old = st.clone()
         sctx = self.spec_ctx(fi, frame, (old, frame), ghosts)
         for p in c.modifies:
@@ -715,10 +729,10 @@ class CallMixin(ExprMixin):
             if self.feasible(st):
                 self.apply_call_hints(st, ctx, fi, old, res, line)
                 results.append((st, res))
-        if fi.is_async and self.top_ctx is not None and self.top_ctx.contract is not None and \
-                (self.top_ctx.contract.env.get("rely_havoc") or self.top_ctx.contract.env.get("rely_inv")):
+        if may_suspend:
+            # other tasks ran while the callee was suspended: their effects (the caller's rely) are visible afterwards
             for s9, _r in results:
-                self.apply_rely(s9, ctx, line)
+                self.apply_rely(s9, ctx, line, check_inv=False)
             results = [(s9, r9) for s9, r9 in results if self.feasible(s9)]
         if not results and live_before and self.recording:
             raise EngineError(f"{ctx.func.key()}:{line}: applying the contract of {c.key} leaves no feasible outcome "
